@@ -8,7 +8,7 @@ one() {
   SCR=$(mktemp -d /tmp/sweep_XXXXXX)
   cp -r $BASE/okdmr $SCR/
   if ! (cd $SCR && patch -p1 -s < $d/patch.diff) >/dev/null 2>&1; then echo "$id rc=NOAPPLY"; rm -rf $SCR; return; fi
-  out=$(cd $HERE && VERIF_REPO=$SCR ./check $P --tier quick ${SEED:+--seed $SEED} 2>&1); rc=$?
+  out=$(cd $HERE && VERIF_OUT=$SCR VERIF_REPO=$SCR ./check $P --tier quick ${SEED:+--seed $SEED} 2>&1); rc=$?
   echo "$id rc=$rc $(echo "$out" | grep -o 'violations=[0-9]*' | tail -1)"
   rm -rf $SCR
 }
